@@ -79,6 +79,7 @@ class FakeZeroconf:
         self.listener_log: list[tuple[int, float, str]] = []
         self.created_seq = w.sim.next_seq()
         self.used_after_close = 0
+        self.closed_by_app = False
         w.instances.append(self)
         w.ev("zc_new", self.idx, self.origin)
 
@@ -98,6 +99,11 @@ class FakeZeroconf:
             self.world.ev("listener_remove_unknown", self.idx)
         self.listener_log.append((self.world.sim.next_seq(), self.world.sim.clock, "remove"))
         self.world.ev("listener_remove", self.idx)
+
+    @property
+    def done(self) -> bool:
+        """python-zeroconf: True once the instance has been shut down."""
+        return self.close_calls > 0
 
     def _close(self) -> None:
         self.close_calls += 1
@@ -151,6 +157,8 @@ class FakeServiceInfo:
         if rec["zc_closed"]:
             zc.used_after_close += 1
         ans = w.answers.get(host, "none")
+        if rec["zc_closed"] and ans != "hang" and not isinstance(ans, BaseException):
+            ans = "none"        # python-zeroconf: a shut-down instance neither sends nor receives; the request runs into its timeout
         delay = 0.05
         if isinstance(ans, dict) and "delay" in ans:
             delay = ans["delay"]
